@@ -212,6 +212,27 @@ def fam_fork_templates(rng, big=False):
             yield "fork:missing-token:" + name, b"".join(q)
         yield "fork:extra-token:" + name, b"".join(parts) + b"\x51"
         yield "fork:extra-data:" + name, b"".join(parts) + push(rbytes(rng, 3))
+    # long scripts (around and beyond the 10,000-byte consensus script size and the 520-byte element size, which do not matter
+    # for typing): templates padded with no-ops to an exact total length, and data slots of about 10 kB
+    for name in ("p2pkh", "p2pk", "p2sh"):
+        toks = FORK_TEMPLATES[name]
+        parts = [t if t is not None else push(rbytes(rng, 33 if name == "p2pk" else 20)) for t in toks]
+        base = b"".join(parts)
+        for total in (519, 520, 521, 9999, 10000, 10001, 10002, 16384, 32768, 32769) + ((70000, 100000) if big else ()):
+            pad = total - len(base)
+            where = rng.choice(["tail", "head", "middle"])
+            nop = bytes([rng.choice(NOP_BYTES)])
+            if where == "tail":
+                yield "fork:long-nops:" + name, base + nop * pad
+            elif where == "head":
+                yield "fork:long-nops:" + name, nop * pad + base
+            else:
+                yield "fork:long-nops:" + name, parts[0] + nop * pad + b"".join(parts[1:])
+        slot = toks.index(None)
+        for ln in (519, 520, 521, 9990, 9996, 9997, 10000, 10001, 10500):
+            q = list(parts)
+            q[slot] = push(rbytes(rng, ln), rng.choice(["p2", "p4"]))
+            yield "fork:long-slot:" + name, b"".join(q)
     # PUSHDATA edge cases
     for op, w in ((0x4C, 1), (0x4D, 2), (0x4E, 4)):
         yield "fork:pushdata-edge", bytes([op])
